@@ -103,6 +103,9 @@ type rig struct {
 	notes   []string
 	served  map[int]int
 	nBans   int
+	// store-level digests around submissions that start with a forbidden header (serial mode): what changed although
+	// the submission had to be refused
+	refusedChanged []string
 }
 
 func (r *rig) serial() bool { return r.s.Sched != "free" }
@@ -696,9 +699,14 @@ func (r *rig) stepServe(i int) (bool, error) {
 		n.mu.Unlock()
 		nodeOp = fmt.Sprintf("node reply %d %d %s %s : %s", n.spec.Cap, pos, r.hashName(req.Stop), locs, idxList(n.spec.Path))
 	}
+	var pre []DbRow
+	if len(r.s.Forbid) > 0 && r.serial() {
+		pre, _ = r.ci.Dump()
+	}
 	what, idxs := n.answer(req)
 	switch what {
 	case "headers":
+		defer r.checkRefusedAfter(pre, idxs)()
 		if err := r.record(fmt.Sprintf("serve %d -> headers %s", i, compactInts(idxs)), fmt.Sprintf("%s headers CHOICE %d %s", r.prefix(), i, idxList(idxs))); err != nil {
 			return true, err
 		}
@@ -812,10 +820,78 @@ func (r *rig) stepAnnounce(i int, how string, k int) error {
 	return r.stepPush(i, how, idxs, step)
 }
 
+// checkRefusedAfter: the same for an answer that has been sent already (the dump was taken before)
+func (r *rig) checkRefusedAfter(before []DbRow, idxs []int) func() {
+	if len(idxs) == 0 || !r.serial() || before == nil {
+		return func() {}
+	}
+	forb := false
+	for _, x := range r.s.Forbid {
+		if x == idxs[0] {
+			forb = true
+		}
+	}
+	if !forb {
+		return func() {}
+	}
+	return func() {
+		after, err := r.ci.Dump()
+		if err == nil && dumpStr(before) != dumpStr(after) {
+			r.refusedChanged = append(r.refusedChanged, fmt.Sprintf("headers %s (answer): the table changed", compactInts(idxs)))
+		}
+	}
+}
+
+// guardRefused: when the headers message about to be sent STARTS with a forbidden header (nothing before it is ingested,
+// the message is refused as a whole), the table must be exactly what it was afterwards. Returns the check to run once
+// the event has settled.
+func (r *rig) guardRefused(idxs []int) func() {
+	if len(idxs) == 0 || !r.serial() {
+		return func() {}
+	}
+	forb := false
+	for _, x := range r.s.Forbid {
+		if x == idxs[0] {
+			forb = true
+		}
+	}
+	if !forb {
+		return func() {}
+	}
+	before, err := r.ci.Dump()
+	if err != nil {
+		return func() {}
+	}
+	return func() {
+		after, err := r.ci.Dump()
+		if err != nil {
+			return
+		}
+		if d := dumpStr(before); d != dumpStr(after) {
+			var diff []string
+			m := map[string]DbRow{}
+			for _, b := range before {
+				m[b.Hash] = b
+			}
+			for _, a := range after {
+				if b, ok := m[a.Hash]; !ok {
+					diff = append(diff, fmt.Sprintf("#%s inserted as %s", r.tree.name(a.Hash), a.State))
+				} else if b.State != a.State {
+					diff = append(diff, fmt.Sprintf("#%s %s -> %s", r.tree.name(a.Hash), b.State, a.State))
+				}
+			}
+			r.refusedChanged = append(r.refusedChanged, fmt.Sprintf("headers %s: %s", compactInts(idxs), strings.Join(diff, ", ")))
+		}
+	}
+}
+
 func (r *rig) stepPush(i int, how string, idxs []int, step string) error {
 	n := r.nodes[i]
 	if len(idxs) == 0 || n.isClosed() {
 		return nil
+	}
+	if how != "inv" {
+		defer r.guardRefused(idxs)()
 	}
 	if how == "inv" {
 		_ = n.sendInv(idxs)
